@@ -418,7 +418,15 @@ const REWRITERS: &[(&str, &str, &str)] = &[
   ("arr", "{kind: array}", "'[]'"),
   ("wrapf", "{pattern: f($X)}", "'wrap($X)'"),
   ("cnum", "{kind: number}", "{template: K, expandStart: {regex: ','}}"),
+  // two rewriters over the same shape that name their variables the other way round, the first with
+  // a constraint that rejects most of its pattern's matches: what it bound before it was rejected
+  // must not reach the second one (C04: a rejected alternative leaves no trace)
+  ("eqnull", "{pattern: $A == $B}", "'isNull($A)'"),
+  ("flip", "{pattern: $B == $A}", "'flipped($B)'"),
 ];
+
+/// `constraints` of the rewriters that have some
+const REWRITER_CONSTRAINTS: &[(&str, &str)] = &[("eqnull", "{B: {regex: '^null$'}}")];
 
 /// the documented meaning of each rewriter's fix, for the reference of oracle `c06_rewriter`:
 /// (template, meta variable substituted verbatim, swallows a directly following comma,
@@ -433,6 +441,8 @@ fn rewriter_doc(id: &str) -> (&'static str, Option<&'static str>, bool, bool) {
     "arr" => ("[]", None, false, false),
     "wrapf" => ("wrap($X)", Some("X"), false, false),
     "cnum" => ("K", None, false, true),
+    "eqnull" => ("isNull($A)", Some("A"), false, false),
+    "flip" => ("flipped($B)", Some("B"), false, false),
     _ => unreachable!(),
   }
 }
@@ -449,14 +459,17 @@ enum Capture {
 
 fn rewriter_config(id: &str) -> RuleConfig<SupportLang> {
   let (_, rule, fix) = REWRITERS.iter().find(|r| r.0 == id).unwrap();
-  let yaml = format!("id: {id}\nlanguage: JavaScript\nrule: {rule}\nfix: {fix}\n");
+  let mut yaml = format!("id: {id}\nlanguage: JavaScript\nrule: {rule}\nfix: {fix}\n");
+  if let Some((_, c)) = REWRITER_CONSTRAINTS.iter().find(|c| c.0 == id) {
+    yaml.push_str(&format!("constraints: {c}\n"));
+  }
   from_yaml_string::<SupportLang>(&yaml, &GlobalRules::default()).expect("rewriter loads").remove(0)
 }
 
 fn gen_js_args(rng: &mut Rng) -> String {
   let atoms = [
     "1", "22", "a", "bé", "中", "g(2)", "g(b)", "g(g(3))", "'x'", "\"é\"", "[1, c]", "h(4, d)", "-5", "a + 1", "g(1) + g(2)",
-    "f(1)", "f(f(2))", "f(g(f(3)))", "g(f(a))", "f(f(f(4)))",
+    "f(1)", "f(f(2))", "f(g(f(3)))", "g(f(a))", "f(f(f(4)))", "x == 1", "y == null", "g(a == b)",
   ];
   let n = rng.below(6);
   let seps = [", ", ",", " ,\n  ", ",\n        ", "\n    , "];
@@ -549,6 +562,9 @@ pub fn rewrite_splice(ctx: &Ctx, rng: &mut Rng, o: &mut Out) {
     (vec!["cnum"], None, "f(a, g(1, 2))", Second),
     (vec!["cnum", "numc"], Some(" | "), "f(1, h(4, 5))", Second),
     (vec!["cnum"], None, "f(a, 2, 3)", All),
+    (vec!["eqnull", "flip"], None, "f(x == 1, y == null)", All),
+    (vec!["eqnull", "flip"], Some(" & "), "f(x == 1, y == null, g(z == 2))", All),
+    (vec!["flip", "eqnull"], None, "f(x == 1, y == null)", All),
   ];
   for k in 0..m + fixed.len() {
     let (ids, joiner, fixed_src, capture): (Vec<&str>, Option<&str>, Option<&str>, Capture) = if k < fixed.len() {
@@ -574,6 +590,9 @@ pub fn rewrite_splice(ctx: &Ctx, rng: &mut Rng, o: &mut Out) {
     for id in &ids {
       let (_, rule, fix) = REWRITERS.iter().find(|r| r.0 == *id).unwrap();
       yaml.push_str(&format!("- id: {id}\n  rule: {rule}\n  fix: {fix}\n"));
+      if let Some((_, c)) = REWRITER_CONSTRAINTS.iter().find(|c| c.0 == *id) {
+        yaml.push_str(&format!("  constraints: {c}\n"));
+      }
     }
     yaml.push_str(&format!("transform:\n  NEW:\n    rewrite:\n      rewriters: [{}]\n      source: {source}\n", ids.join(", ")));
     if let Some(j) = joiner {
